@@ -12,7 +12,7 @@ unplace() { for m in "$@"; do f="${m%%:*}"; d="${m##*:}"; rm -f "$WT/$d/$f"; don
 place "$@"
 ( cd "$WT" && eval "$run" ) >>"$LOG" 2>&1; without=$?
 git -C "$WT" apply "$src/patch.diff" >>"$LOG" 2>&1 || { echo "SEED-RESULT $id APPLY-FAILED"; exit 1; }
-( cd "$WT" && go build ./... ) >>"$LOG" 2>&1; build=$?
+( cd "$WT" && go build -trimpath ./... ) >>"$LOG" 2>&1; build=$?
 ( cd "$WT" && eval "$run" ) >>"$LOG" 2>&1; with=$?
 unplace "$@"
 suite=$( cd "$WT" && go test -vet=off -count=1 -timeout 20m ./... 2>&1 | grep "^FAIL\s" | awk '{print $2}' | sed 's|github.com/AliceO2Group/Control/||' | sort | tr '\n' ' ')
